@@ -1,8 +1,10 @@
 import Driver.Proto
 import XsdataModel.Py.TblEnv
 import XsdataModel.Samples.Infer
+import XsdataModel.Conv.TblCEnv
 import XsdataModel.Samples.Mapper
 import XsdataModel.Samples.Reduce
+import XsdataModel.Samples.Fields
 open Lean Proto Py Xs.Samples
 
 namespace OpsSamples
@@ -25,17 +27,13 @@ def dOptStr (j : Json) : Except String (Option Str) :=
   | .str s => .ok (some s.toList)
   | _ => .error s!"expected optional string: {j.compress}"
 
-/-- the abstract strict tests arrive as a table `[[s, float?, decimal?], …]` -/
+/-- `repr(float(s))` arrives as a map `freprs` for the strings of the request that `float()` accepts -/
 def dEnv (a : Json) : Except String SEnv := do
-  let rows ← match fld a "abs" with
-    | .arr xs => xs.toList.mapM fun r =>
-        match r with
-        | .arr #[s, f, d] => do pure ((← asStr s), (← dBool f), (← dBool d))
-        | _ => .error "bad abs row"
-    | .null => pure []
-    | _ => .error "bad abs"
-  let look (s : Str) : Bool × Bool := ((rows.find? (·.1 = s)).map (·.2)).getD (false, false)
-  pure { py := tblEnv, floatStrict := fun s => (look s).1, decimalStrict := fun s => (look s).2 }
+  let freprs := fld a "freprs"
+  pure { conv := Xs.Conv.tblCEnv fun s =>
+    match freprs.getObjVal? (String.ofList s) with
+    | .ok (.str r) => r.toList
+    | _ => "?missing-float-repr".toList }
 
 def dScalar (j : Json) : Except String Scalar :=
   match j with
@@ -161,10 +159,21 @@ def run (op : String) (a : Json) : Option (Except String Json) :=
   | "smp.json_docs" => some do
       let e ← dEnv a
       let name ← asStr (fld a "name")
-      let docs ← (← asArr (fld a "docs")).mapM fun d => do dictOf (← dJVal d)
-      match docs.mapM (fun d => mapDict e d name) with
-      | some css => pure <| optClasses (reduceClasses css.flatten)
-      | none => pure <| err "IndexError"
+      let docs ← (← asArr (fld a "docs")).mapM dJVal
+      match docs.mapM (fun d => mapJsonDoc e d name) with
+      | .ok css => pure <| optClasses (reduceClasses css.flatten)
+      | .error k => pure <| err k
+  | "smp.fields" => some do
+      let e ← dEnv a
+      let docs ← (← asArr (fld a "trees")).mapM dEl
+      let jField (f : Field) : Json :=
+        jObj [("tag", jStr f.tag.str), ("name", jStr f.name), ("list", jBool f.isList), ("default", jBool f.hasDefault),
+              ("nillable", jBool f.nillable), ("min", jOpt jNat f.minOccurs),
+              ("max", jOpt jNat f.maxOccurs), ("seq", jOpt jNat f.sequence)]
+      pure <| match reduceClasses (docs.flatMap (mapElement e)) with
+        | some cs => ok (jList (fun (c : Cls) =>
+            jObj [("qname", jStr c.qname), ("fields", jOpt (jList jField) (classFields cs c))]) cs)
+        | none => err "IndexError"
   | "smp.e2e_xml" => some do
       let e ← dEnv a
       let docs ← (← asArr (fld a "trees")).mapM dEl
@@ -175,13 +184,13 @@ def run (op : String) (a : Json) : Option (Except String Json) :=
   | "smp.e2e_json" => some do
       let e ← dEnv a
       let name ← asStr (fld a "name")
-      let docs ← (← asArr (fld a "enc")).mapM fun d => do dictOf (← dJVal d)
-      match docs.mapM (fun d => mapDict e d name) with
-      | some css => pure <| match allAdmitted css.flatten with
+      let docs ← (← asArr (fld a "enc")).mapM dJVal
+      match docs.mapM (fun d => mapJsonDoc e d name) with
+      | .ok css => pure <| match allAdmitted css.flatten with
         | some true => ok (Json.str "accepted")
         | some false => ok (Json.str "model-rejects")
         | none => err "IndexError"
-      | none => pure <| err "IndexError"
+      | .error k => pure <| err k
   | _ => none
 
 end OpsSamples
